@@ -55,13 +55,14 @@ FrameFor(i, kind, c, ver, mt) ==
     LET p == [Proto(i) EXCEPT !.mt = mt] IN
     FrameHdr(ver, Ep(i)[1], mt, Ep(i)[2], c) \o Body(i, kind, p)
 
-CtrOf(c, rel) == IF rel = "next" THEN (c + 1) % 65536 ELSE IF rel = "same" THEN c ELSE (c + 2) % 65536
+CtrOf(c, rel) == IF rel = "next" THEN (c + 1) % 65536 ELSE IF rel = "same" THEN c
+                 ELSE IF rel = "plus2" THEN (c + 2) % 65536 ELSE (c + 257) % 65536        \* 256 frames lost: equal modulo 256 only
 VerOf(i, rel) == IF rel = "same" THEN i ELSE i + 8
 MtOf(rel) == IF rel = "same" THEN MtData ELSE MtStatus
 
 KindIdx(k) == CHOOSE n \in 1..17 : << "U", "F", "I", "L", "F0", "Ftrail", "Lpad", "UU", "UF", "UL", "FU", "bad0", "err",
                                      "errL", "long", "cut12", "hdr8" >>[n] = k
-RelIdx(r) == IF r = "next" THEN 0 ELSE IF r = "same" THEN 1 ELSE 2
+RelIdx(r) == IF r = "next" THEN 0 ELSE IF r = "same" THEN 1 ELSE IF r = "plus2" THEN 2 ELSE 3
 
 Init ==
     /\ pending = D!EmptyPending
